@@ -1,0 +1,5 @@
+//go:build !verif
+
+package hash
+
+func verifSeed() (uint32, bool) { return 0, false }
